@@ -73,6 +73,7 @@ class Ctx:
     def __init__(self):
         self.timeout = 10000  # ms per query (per backend attempt)
         self.decide_timeout = 4000
+        self.resolve_minmax = False  # opt-in: min/max of two terms whose order is implied by the path condition is not an if-then-else
         self.feq_tol = None  # tolerance for == / != in float evaluation (set only while screening candidate models)  # ms for branch-feasibility queries (unknown = treated as feasible)
         self.stats = Stats()
         self.max_decisions = 400
